@@ -32,7 +32,8 @@ ASSUMPTIONS = [
     "grids: size 1..64 per axis (cube axes need n >= 2), spacing in [0.05, 20], |center| <= 500, |det direction| = 1",
     "grids with a history: the float64 model uses the attributes (size, spacing, center, direction, flag) the derived Grid object "
     "reports - the maps must be consistent with those; whether the derived attributes are the right ones is property C03's subject; "
-    "steps that would give a fractional internal size, resize an axis with a single sample or leave too few samples are skipped",
+    "half of them have a fractional internal size (downsample() of an odd size, resample() to a non-dividing spacing; size() is its "
+    "ceiling and is what the model uses); steps that resize an axis with a single sample or leave too few samples are skipped",
     "normalize_grid/denormalize_grid with align_corners=False are only checked as an inverse pair: their docstrings do not "
     "define the 'unnormalized' coordinate for that convention (they map index i to 2i/n-1, not the grid's (2i+1)/n-1)",
 ]
@@ -101,6 +102,7 @@ def map_cases(draw, two=False):
     }
     if case["route"] == "derived":
         case["derive"] = draw(gen.derivation_steps(D))
+        case["fractional"] = draw(st.booleans())
     if two:
         case["grid2"] = draw(second_grid(g, D, 2 if need2 else 1))
     return case
@@ -114,7 +116,8 @@ def second_grid(draw, g, D, min_size):
     rel = draw(st.sampled_from(["independent", "independent", "resized_extent", "resized_corners", "acflip", "equal", "translated",
                                 "derived", "derived"]))
     if rel == "derived":  # obtained from the first Grid object itself by deepali's own methods (see build())
-        return {"rel": rel, "derive": draw(gen.derivation_steps(D)), "swap": draw(st.booleans()), "kind": "derived"}
+        return {"rel": rel, "derive": draw(gen.derivation_steps(D)), "swap": draw(st.booleans()), "kind": "derived",
+                "fractional": draw(st.booleans())}
     if rel == "independent":
         g2 = draw(gen.grids(D, min_size=min_size))
     else:
@@ -167,14 +170,14 @@ def _bound(m_to: ref.GridModel, m_from: ref.GridModel, a: str, b: str, p: np.nda
     return bound
 
 
-def build(g: dict, route: str = "center", derive=None, min_size: int = 1):
+def build(g: dict, route: str = "center", derive=None, min_size: int = 1, fractional: bool = False):
     """Grid under test and its float64 model.  route 'derived': the grid is obtained from the constructed one by
     deepali's own derivation methods after the parent was used (state carried by Grid objects); the model is
     then built from the attributes the derived grid reports - the maps must be consistent with those."""
     if route != "derived":
         return make_grid(g, route), ref.GridModel.from_desc(g), []
-    grid, ops = derive_grid(make_grid(g), derive, min_size)
-    return grid, model_of_grid(grid), ops
+    grid, ops = derive_grid(make_grid(g), derive, min_size, fractional)
+    return grid, model_of_grid(grid), ops + (["fractional"] if not bool(torch.equal(grid._size, grid._size.round())) else [])
 
 
 def nontrivial_grid(case) -> bool:
@@ -214,13 +217,15 @@ def _call_map(grid, p: torch.Tensor, a: str, b: str, api: str, decimals: str, to
     return grid.transform_points(p, A, B, to_grid=to_grid, **kw), decimals
 
 
-def build_second(grid, m, g2: dict, min_size: int = 1):
+def build_second(grid, m, g2: dict, min_size: int = 1, fractional: bool = False):
     """Second grid of a two-grid case: from its own descriptor, or derived from the first Grid object (either
     one may then play the role of the source grid)."""
     if g2.get("rel") != "derived":
         return grid, m, make_grid(g2), ref.GridModel.from_desc(g2), []
-    other, ops = derive_grid(grid, g2["derive"], min_size)
+    other, ops = derive_grid(grid, g2["derive"], min_size, fractional or bool(g2.get("fractional")))
     mo = model_of_grid(other)
+    if not bool(torch.equal(other._size, other._size.round())):
+        ops = ops + ["fractional"]
     if g2.get("swap"):
         return other, mo, grid, m, ops
     return grid, m, other, mo, ops
@@ -230,7 +235,7 @@ def run_ref_model(case):
     g = case["grid"]
     a, b = case["a"], case["b"]
     min_size = 2 if any(x in ("cube", "cube_corners") for x in (a, b)) else 1
-    grid, m, ops = build(g, case["route"], case.get("derive"), min_size)
+    grid, m, ops = build(g, case["route"], case.get("derive"), min_size, bool(case.get("fractional")))
     m2, grid2 = m, None
     if "grid2" in case:
         grid, m, grid2, m2, ops2 = build_second(grid, m, case["grid2"], min_size)
@@ -341,6 +346,7 @@ def vector_cases(draw):
     case["vec"] = draw(st.lists(st.lists(gen.qfloat(-2.0, 2.0, 0.001), min_size=D, max_size=D), min_size=n, max_size=n))
     if draw(st.integers(0, 2)) == 0:
         case["derive"] = draw(gen.derivation_steps(D))
+        case["fractional"] = draw(st.booleans())
     if case["two"]:
         case["grid2"] = draw(second_grid(g, D, 2))
     return case
@@ -351,7 +357,7 @@ def run_vectors(case):
     from deepali.core.linalg import homogeneous_transform
 
     g = case["grid"]
-    grid, m, ops = build(g, "derived" if "derive" in case else "center", case.get("derive"), 2)
+    grid, m, ops = build(g, "derived" if "derive" in case else "center", case.get("derive"), 2, bool(case.get("fractional")))
     a, b = case["a"], case["b"]
     A, B = _axes(a), _axes(b)
     dt = tdtype(case["dtype"])
@@ -425,6 +431,7 @@ def anchor_cases(draw):
     case = {"D": D, "grid": draw(gen.grids(D, min_size=2)), "route": draw(st.sampled_from(["center", "origin", "derived"]))}
     if case["route"] == "derived":
         case["derive"] = draw(gen.derivation_steps(D))
+        case["fractional"] = draw(st.booleans())
     return case
 
 
@@ -432,7 +439,7 @@ def run_anchors(case):
     from deepali.core import Axes
 
     g = case["grid"]
-    grid, m, ops = build(g, case["route"], case.get("derive"), 2)
+    grid, m, ops = build(g, case["route"], case.get("derive"), 2, bool(case.get("fractional")))
     state = grid_state(grid)
     D = case["D"]
     n = m.n
